@@ -17,7 +17,7 @@ import concurrent.futures
 import os
 from lib import *
 
-QUICK = ["MC_C15_quick.cfg"]
+QUICK = ["MC_C15_quick.cfg", "MC_C15_quick_siblings.cfg"]
 THOROUGH = ["MC_C15_thorough.cfg", "MC_C15_thorough_chain.cfg", "MC_C15_thorough_resettle.cfg"]
 ASBUILT = "MC_C15_asbuilt.cfg"
 
